@@ -337,6 +337,12 @@ def run(prop, tier, seed, known):
             b = guard('transcription', lambda: T.precision_recall_f1_overlap(ri, rpit, ei, rpit))
             if a is not None and b is not None and (a[0] > b[0] + 1e-12 or a[1] > b[1] + 1e-12):
                 fails.append('with velocity scores above without velocity: %s vs %s' % (a, b))
+            # MIDI velocities given as integers (int64 / uint8 arrays) are valid input and score like the same values as floats
+            for dt_ in (np.int64, np.uint8):
+                ai_ = guard('transcription_velocity.precision_recall_f1_overlap on %s velocities' % np.dtype(dt_).name,
+                            lambda: TV.precision_recall_f1_overlap(ri, rpit, rv.astype(dt_), ei, rpit, evv.astype(dt_)))
+                if ai_ is not None and a is not None and any(abs(float(x_) - float(y_)) > 1e-9 for x_, y_ in zip(ai_, a)):
+                    fails.append('transcription_velocity on %s velocities %s, its definition gives %s on the same values as floats' % (np.dtype(dt_).name, tuple(float(x_) for x_ in ai_), tuple(float(x_) for x_ in a)))
             # ---------------------------------------------------------------- melody: octave, sign flip, common factor (C09)
             nf = rng.randint(2, 6)
             tt = np.arange(nf) * 0.125
